@@ -544,6 +544,11 @@ func (fr *Frame) valueInstr(st *State, v ssa.Value) {
 				vc.sc.Axiom(Eq(sx("okind", sx("root", r)), "0"))
 			}
 			vc.assumeZero(st, r, et)
+			if typeKey(et) == "bytes.Buffer" {
+				// the zero bytes.Buffer is empty (ghost content used by the json model, json.go)
+				vc.memSorts[bufKey] = bufSort
+				vc.setBuf(st, vc.box(r, x.Type()), StrLit(""))
+			}
 		}
 	case *ssa.BinOp:
 		fr.define(x, fr.binop(st, x))
@@ -626,6 +631,17 @@ func (fr *Frame) valueInstr(st *State, v ssa.Value) {
 		fr.tuples[x] = ts
 	case *ssa.Range:
 		fr.vals[x] = fr.val(x.X)
+		if mt, isMap := types.Unalias(x.X.Type()).Underlying().(*types.Map); isMap {
+			ks := vc.sortOf(mt.Key())
+			gk := "G:ranged:" + fr.prefix + x.Name()
+			vc.memSorts[gk] = "(Array " + ks + " Bool)"
+			st.mem[gk] = "((as const (Array " + ks + " Bool)) false)"
+			_, kin := mapKeys(mt)
+			if fr.rangeIn0 == nil {
+				fr.rangeIn0 = map[*ssa.Range]Term{}
+			}
+			fr.rangeIn0[x] = vc.rawLoadSort(st, kin, "(Array "+ks+" Bool)", fr.val(x.X))
+		}
 	case *ssa.Next:
 		fr.next(st, x)
 	case *ssa.TypeAssert:
@@ -1067,6 +1083,22 @@ func (fr *Frame) next(st *State, x *ssa.Next) {
 		cur := vc.rawLoadSort(st, kv, "(Array "+ks+" "+vs+")", m)
 		curin := vc.rawLoadSort(st, kin, "(Array "+ks+" Bool)", m)
 		vc.sc.Assume(st.reach, Implies(ok, And(Not(Eq(m, "nilref")), sx("select", curin, k))))
+		// ghost set of keys already produced by this range: each key at most once; when the range
+		// ends every key of the map has been produced, provided the map's key set is still the one
+		// it had when the range started (Go: entries added while ranging may be skipped)
+		gk := "G:ranged:" + fr.prefix + rng.Name()
+		gsort := "(Array " + ks + " Bool)"
+		vc.memSorts[gk] = gsort
+		if seen, have := st.mem[gk]; have {
+			vc.sc.Assume(st.reach, Implies(ok, Not(sx("select", seen, k))))
+			if in0, ok0 := fr.rangeIn0[rng]; ok0 {
+				vc.sc.Assume(st.reach, Implies(And(Not(ok), Eq(curin, in0)),
+					fmt.Sprintf("(forall ((?rk %s)) (! (=> (select %s ?rk) (select %s ?rk)) :pattern ((select %s ?rk))))", ks, curin, seen, curin)))
+			}
+			nm := vc.newMemVersion(gk)
+			vc.sc.Def(Eq(nm, Ite(ok, sx("store", seen, k, "true"), seen)))
+			st.mem[gk] = nm
+		}
 		if vc.sortOf(tup.At(2).Type()) == vs {
 			vc.sc.Assume(st.reach, Implies(ok, Eq(v, sx("select", cur, k))))
 		}
